@@ -62,11 +62,12 @@ def _case(draw, tier):
         if draw(st.booleans()):
             p = ["not", "not_", p]
         c["cond"] = [draw(st.sampled_from(["and", "and", "or"])), "nary", [c["cond"], p] if draw(st.booleans()) else [p, c["cond"]]]
+    registry_var = None
     if chance(draw, 1, 3):
-        # a variable without a domain (registry) with a field constraint, built in query or in rule mode
-        vd = c["vars"][draw(st.integers(0, len(c["vars"]) - 1))]
-        vd.update(decl="registry", in_rule=draw(st.booleans()),
-                  kw=[[draw(st.sampled_from(["a", "b"])), draw(st.sampled_from([0, 1, 2]))]])
+        # a variable without a domain (registry) with a field constraint
+        registry_var = c["vars"][draw(st.integers(0, len(c["vars"]) - 1))]
+        registry_var.update(decl="registry", in_rule=False,
+                            kw=[[draw(st.sampled_from(["a", "b"])), draw(st.sampled_from([0, 1, 2]))]])
     if chance(draw, 1, 4):
         # a user predicate that opens a symbolic block of its own while it runs
         v = draw(st.integers(0, len(c["vars"]) - 1))
@@ -75,6 +76,11 @@ def _case(draw, tier):
     c["quant"] = draw(st.sampled_from(["an", "the", "the", "infer", "infer"]))
     c["steer"] = draw(st.sampled_from(["keep", "one", "one", "zero"])) if c["quant"] == "the" else "keep"
     c["pick"] = draw(st.integers(0, 20))
+    if c["quant"] == "infer" and registry_var is not None:
+        # declared in a rule block only as a body variable of a rule (a keyword-constrained variable declared in rule
+        # mode and then SELECTED by a query-mode query is a mix of modes nothing documents; an earlier version of this
+        # generator produced it, the outcome depended on process state and is not asserted any more)
+        registry_var["in_rule"] = draw(st.booleans())
     if c["quant"] == "infer":
         nv = len(c["vars"])
         if nv == 1:
